@@ -355,10 +355,21 @@ def folds(repo: Repo, m: ModuleInfo, func: ast.AST) -> list[Fold]:
                 if not (isinstance(loop, ast.For) and not loop.orelse and len(loop.body) == 1):
                     continue
                 s = loop.body[0]
-                if isinstance(s, ast.Assign) and len(s.targets) == 1 and isinstance(s.targets[0], ast.Name):
-                    acc, step_e = s.targets[0].id, s.value
-                elif isinstance(s, ast.AugAssign) and isinstance(s.target, ast.Name):
-                    acc, step_e = s.target.id, ast.BinOp(left=ast.Name(id=s.target.id, ctx=ast.Load()), op=s.op, right=s.value)
+
+                def single_assign(st):
+                    if isinstance(st, ast.Assign) and len(st.targets) == 1 and isinstance(st.targets[0], ast.Name):
+                        return st.targets[0].id, st.value
+                    if isinstance(st, ast.AugAssign) and isinstance(st.target, ast.Name):
+                        return st.target.id, ast.BinOp(left=ast.Name(id=st.target.id, ctx=ast.Load()), op=st.op, right=st.value)
+                    return None
+
+                one = single_assign(s)
+                if one is not None:
+                    acc, step_e = one
+                elif isinstance(s, ast.If) and len(s.body) == 1 and len(s.orelse) == 1 and single_assign(s.body[0]) and single_assign(s.orelse[0]) and single_assign(s.body[0])[0] == single_assign(s.orelse[0])[0]:
+                    # `if c: acc = A else: acc = B`  ==  acc = A if c else B
+                    acc = single_assign(s.body[0])[0]
+                    step_e = ast.IfExp(test=s.test, body=single_assign(s.body[0])[1], orelse=single_assign(s.orelse[0])[1])
                 else:
                     continue
                 init = None
@@ -366,7 +377,28 @@ def folds(repo: Repo, m: ModuleInfo, func: ast.AST) -> list[Fold]:
                     init = prev.value
                 elif isinstance(prev, ast.AnnAssign) and isinstance(prev.target, ast.Name) and prev.target.id == acc and prev.value is not None:
                     init = prev.value
+                elif isinstance(func, (ast.FunctionDef, ast.AsyncFunctionDef)) and acc in [a.arg for a in func.args.posonlyargs + func.args.args + func.args.kwonlyargs]:
+                    # the accumulator is a parameter updated in place of a fresh name: it starts from the argument
+                    before = [x for x in walk_no_nested(func) if isinstance(x, ast.Name) and x.id == acc and isinstance(x.ctx, ast.Store) and (x.lineno, x.col_offset) < (loop.lineno, loop.col_offset)]
+                    if not before:
+                        init = ast.Name(id=acc, ctx=ast.Load())
                 if init is None or acc not in {x.id for x in ast.walk(step_e) if isinstance(x, ast.Name)}:
                     continue
                 out.append(Fold(init, loop.iter, _rename_text(step_e, {acc: "$acc", **item_map(loop.target)}), loop, "loop", acc))
     return out
+
+
+def returned_component(stmts: list[ast.stmt]) -> tuple[ast.Call | None, int | None]:
+    """For a statement list that ends by returning one component of a call's tuple result — `return CALL[k]`, or
+    `a, b = CALL` ; `return b` — the call and the component index; (None, None) otherwise."""
+    body = [s for s in stmts if not (isinstance(s, ast.Expr) and isinstance(s.value, ast.Constant))]
+    if not body or not isinstance(body[-1], ast.Return) or body[-1].value is None:
+        return None, None
+    v = body[-1].value
+    if len(body) == 1 and isinstance(v, ast.Subscript) and isinstance(v.value, ast.Call) and isinstance(v.slice, ast.Constant) and isinstance(v.slice.value, int):
+        return v.value, v.slice.value
+    if len(body) == 2 and isinstance(v, ast.Name) and isinstance(body[0], ast.Assign) and len(body[0].targets) == 1 and isinstance(body[0].targets[0], ast.Tuple) and isinstance(body[0].value, ast.Call):
+        names = [x.id if isinstance(x, ast.Name) else None for x in body[0].targets[0].elts]
+        if names.count(v.id) == 1:
+            return body[0].value, names.index(v.id)
+    return None, None
